@@ -149,8 +149,9 @@ StepBus127(s, b, call) ==
               missing == Needed127(mode, call) \ s.prog
               okc == IF mode \in {3, 5, 6, 7}
                      THEN /\ (IF missing = {} THEN TRUE
-                              \* KNOWN FINDING (open): continuous_wave() leaves the driver in mode Transmit, so a tx()
-                              \* straight after it is accepted although no payload (length) was ever programmed
+                              \* (former finding S37, repaired: continuous_wave() leaves the driver in mode Transmit and a
+                              \* tx() straight after it used to be accepted although no payload length was ever programmed;
+                              \* the signature is not in the list any more, so a recurrence is a violation)
                               ELSE IF s.cm = "cw" /\ call = "tx" /\ missing \subseteq {"paylen", "txbase"} /\ IsAllowed("tx-after-cw-unprepared")
                                    THEN Known("tx-after-cw-unprepared", <<"missing", missing>>)
                               ELSE Viol(s, <<"C14-3 operation started without reprogramming after reset", call, mode, "missing", missing>>))
